@@ -883,6 +883,8 @@ func c07Inputs(c *Check) {
 	c06ResultsKept(c, "R9b")
 	c07PublicSuffixInputs(c)
 	c07FromFieldCount(c)
+	c07AuthResultsAccumulate(c, "R11")
+	c07FromFieldRaw(c)
 	// the quarantine action of the DMARC verdict is a flag on the message metadata: every target must hold the object it is set on
 	c.Rule("R9c", "the quarantine action reaches the targets: targets keep, and the pipeline hands them, the metadata object the verdict is written to (C06.R5, C06.R5c)", 2)
 	{
@@ -1181,4 +1183,50 @@ func c07FromFieldCount(c *Check) {
 		return false
 	})
 	c.Hold("R10", "ExtractFromDomain:seen-state", r.FI.Decl.Pos(), msg == "", msg)
+}
+
+
+// R12: the author address is taken from the From field as transmitted. RFC 2047 words are decoded AFTER the structure
+// of the field is parsed (net/mail does that for display names); a field decoded beforehand turns characters hidden in
+// an encoded word (`@ ( ) , <`) into address syntax: `=?utf-8?q?x=40attacker.example_=28?= <ceo@victim.example> (…)`
+// parses as x@attacker.example, and DMARC evaluates the wrong domain.
+func c07FromFieldRaw(c *Check) {
+	c.Rule("R12", "ExtractFromDomain: the string handed to the address-list parser is the From field's value as read from the header on every path – no decoding or rewriting step in between", 1)
+	r := c.need("R12", "internal/dmarc", "", "ExtractFromDomain")
+	if r == nil {
+		return
+	}
+	info := r.Info
+	msg := "undecided: no call of the address-list parser"
+	for _, pt := range r.F.Points() {
+		for _, call := range callsAt(pt.Node()) {
+			if !isCall(info, call, "net/mail.ParseAddressList", "net/mail.ParseAddress", "net/mail.AddressParser.ParseList") || len(call.Args) < 1 {
+				continue
+			}
+			msg = ""
+			arg := call.Args[len(call.Args)-1]
+			raw := func(e ast.Expr) bool {
+				cc, ok := ast.Unparen(e).(*ast.CallExpr)
+				return ok && (methodName(cc) == "Value" || methodName(cc) == "Get") && len(cc.Args) <= 1
+			}
+			if raw(arg) {
+				continue
+			}
+			v, isVar := objOf(info, arg).(*types.Var)
+			if !isVar || v.IsField() {
+				msg = "the address-list parser is given " + exprStr(arg) + ", not the field value as read"
+				continue
+			}
+			defs, ok := r.ReachingDefs(v, pt, nil)
+			for _, d := range defs {
+				if !raw(d) {
+					msg = "the From field is rewritten (" + exprStr(d) + ") before its structure is parsed: characters hidden in an RFC 2047 encoded word become address syntax – a crafted display name makes DMARC evaluate another domain than the one shown to the recipient, or hides a second author address"
+				}
+			}
+			if !ok && msg == "" && len(defs) == 0 {
+				msg = "undecided: the definitions of " + v.Name() + " are not simple assignments"
+			}
+		}
+	}
+	c.Hold("R12", "ExtractFromDomain:raw-field-parsed", r.FI.Decl.Pos(), msg == "", msg)
 }
